@@ -14,10 +14,10 @@ open Monero Ledger
 What is proved here is about the *model*: (1) decoders return vectors within the allocation cap, so the tree-hash
 precondition holds for every parsed block and its Merkle root computation cannot hit an assert; (2) the loops that are
 not bounded by a count terminate (VarInt consumes at most 10 bytes; the extra-field loop is C16_total); (3) the
-allocation ledger: decoders annotated with the heap they allocate (`with_capacity` after the cap check, earlier values
-alive while later ones are read) stay within `A + B·(bytes looked at)`, the bound being closed under sequencing,
-repetition and capped vectors, and instantiated on the worst nesting of the transaction decoder (`Vec<TxIn>` containing
-`Vec<VarInt>`) with decoders proved to compute the same values as the model decoders.
+allocation ledger: decoders annotated with the heap they allocate (`with_capacity` after the cap check, push-grown vectors,
+the uncapped scratch vector of the VarInt decoder, earlier values alive while later ones are read) stay within
+`A + B·(bytes looked at)`, the bound being closed under sequencing, repetition and capped vectors, and instantiated on the
+whole transaction / block decoder with decoders proved to compute the same values as the model decoders.
 (4) the data-dependent panic sites of the address byte parser, the amount text parser, the padding loop, the VarInt
 accumulation and the ring-size computation are made EXPLICIT (Model/Panics.lean: every slice, index, `str` slice and
 machine-integer `+`/`-` returns `panic site` when its precondition fails) and proved unreachable for every input, the
@@ -84,6 +84,18 @@ theorem C04_extra_total (vk : Bytes → Bool) (e : Bytes) (fuel : Nat) (hf : e.l
     Extra.loop vk fuel e [] false 0 = some (Extra.tryParse vk e) :=
   (C16.C16_total vk e).2 fuel hf
 
+/-! ## Allocation ledger (Model/Ledger.lean)
+
+WHAT THE LEDGER COUNTS. The instrumented decoders charge: every `Vec::with_capacity(n)` reservation (after its cap check), every
+push-grown vector (`GROW = 4` times the element size per element), and — since the review — the scratch vector
+`res: Vec<u8>` of `VarInt::consensus_decode`, the one allocation of the decoders that NO cap protects (it grows with the
+input: `max 8 (4·k)` bytes while `k` groups are held, on the successful and on every failing path; nothing afterwards).
+WHAT IT OMITS: the input buffer, the reader, error values, the stack, allocator bookkeeping / fragmentation, and whatever the
+public operations on a parsed value allocate — those are observed by the isolated runs only. `live = 0` after a failure is the
+drop semantics ASSUMED in the combinators (`rbind`, `rvecN`, `rcharge`, `ralloc`, `rvarint` all return `⟨none, p, 0⟩`), i.e.
+"an `Err` return drops every local": an assumption of the ledger about Rust, not a fact derived about the decoder.
+The driver prints the ledger's peak (`c04_ledger`), and the harness holds the measured peak heap of the real parse to it. -/
+
 /-- allocation ledger, closure: sequencing keeps the bound; a capped pre-allocating vector adds one CAP to the constant
 and `size_of::<T>()` to the slope -/
 theorem C04_alloc_bind {α β} {A B : Nat} {d : RDec α} {f : α → RDec β}
@@ -92,45 +104,77 @@ theorem C04_alloc_vec {α} {A B sz : Nat} {d : RDec α} (hd : Bounded A B d)
     (hmin : ∀ b x r, (d b).val = some (x, r) → r.length + 1 ≤ b.length) (n : Nat) :
     Bounded (A + CAP) (B + sz) (rvecN CAP sz d n) := bounded_vecN (w := 1) hd (Nat.le_refl 1) hmin n
 
+/-- the VarInt decoder alone: the instrumented decoder computes the model's value, its scratch vector never exceeds 8 bytes per
+byte it has looked at (consumed on success; possibly the WHOLE input on failure), and nothing is kept when it returns -/
+theorem C04_alloc_bound_varint (b : Bytes) :
+    (rvarint b).val = varint b ∧ (rvarint b).peak ≤ 8 * b.length ∧ (rvarint b).live = 0 := by
+  refine ⟨rfl, ?_, rfl⟩
+  have hp := bounded_rvarint.peak b
+  have hu : used b (rvarint b) ≤ b.length := by unfold used; split <;> omega
+  have := Nat.mul_le_mul_left VSLOPE hu
+  have hv : VSLOPE = 8 := rfl
+  rw [hv] at this hp
+  omega
+
+/-- the charge is not vacuous: on `0xff^n` — a VarInt that never ends — the transaction and the block decoder fail, and the
+ledger reports the scratch vector that the Rust holds at that moment, `max 8 (4·n)` bytes for `n ≥ 1` (before the review
+the ledger said 0 here) -/
+theorem C04_alloc_ledger_counts_varint_scratch (n : Nat) (hn : 1 ≤ n) :
+    (rtx (List.replicate n 0xff)).val = none ∧ (rtx (List.replicate n 0xff)).peak = max 8 (4 * n) ∧
+    (rblock (List.replicate n 0xff)).val = none ∧ (rblock (List.replicate n 0xff)).peak = max 8 (4 * n) := by
+  have h := ledger_ff n
+  have e : scratchU8 n = max 8 (4 * n) := by unfold scratchU8 GROW; rw [if_neg (by omega)]
+  rw [e] at h; exact h
+example : (1 : Nat) ≤ 1048576 := by decide
+
 /-- allocation ledger, instance: decoding the inputs vector of a transaction (`Vec<TxIn>`, each key input holding a
 `Vec<VarInt>`) — the instrumented decoder computes exactly the model's result, and at every moment of the decode the
-outstanding heap is at most `2·CAP + (size_of VarInt + size_of TxIn)·(bytes looked at)`, whether it succeeds or fails -/
+heap the ledger counts is at most `2·CAP + (8 + size_of VarInt + size_of TxIn)·(bytes looked at)`, whether it succeeds or
+fails (8: the VarInt scratch vector) -/
 theorem C04_alloc_bound_inputs (b : Bytes) :
     (rvecTxIn b).val = vec sizes.txin txin b ∧
-    (rvecTxIn b).peak ≤ 2 * CAP + (sizes.varint + sizes.txin) * b.length := by
+    (rvecTxIn b).peak ≤ 2 * CAP + (8 + sizes.varint + sizes.txin) * b.length := by
   refine ⟨rvecTxIn_val b, ?_⟩
   have hp := bounded_rvecTxIn.peak b
   have hu : used b (rvecTxIn b) ≤ b.length := by
     unfold used; split <;> omega
-  have := Nat.mul_le_mul_left (sizes.varint + sizes.txin) hu
+  have := Nat.mul_le_mul_left (VSLOPE + sizes.varint + sizes.txin) hu
+  have hv : VSLOPE = 8 := rfl
+  rw [hv] at this hp
   omega
 
 /-- allocation ledger for the WHOLE transaction decoder (prefix, v1 signature rows, RingCT base, all prunable layouts): the
 instrumented decoder `rtx` — `with_capacity` reservations charged after their cap check, push-grown vectors (ecdh info, CLSAGs,
-MLSAGs, signature rows) charged with growth factor 4, earlier fields alive while later ones are read — computes exactly the
-model's result, and at every moment of the decode the outstanding heap is at most `2·CAP + 88·|b|`, on success and on failure -/
+MLSAGs, signature rows) charged with growth factor 4, the scratch vector of every VarInt charged while that VarInt is decoded,
+earlier fields alive while later ones are read — computes exactly the model's result, and at every moment of the decode the heap
+the ledger counts is at most `2·CAP + 96·|b|`, on success and on failure -/
 theorem C04_alloc_bound_tx (b : Bytes) :
-    (rtx b).val = tx b ∧ (rtx b).peak ≤ 2 * CAP + Btx * b.length := alloc_bound_tx b
+    (rtx b).val = tx b ∧ (rtx b).peak ≤ 2 * CAP + 96 * b.length := alloc_bound_tx b
 /-- … and for blocks (header, miner transaction, hash list) -/
 theorem C04_alloc_bound_block (b : Bytes) :
-    (rblock b).val = block b ∧ (rblock b).peak ≤ 2 * CAP + Bblock * b.length := alloc_bound_block b
+    (rblock b).val = block b ∧ (rblock b).peak ≤ 2 * CAP + 96 * b.length := alloc_bound_block b
 /-- … and for the stand-alone transaction prefix (`deserialize::<TransactionPrefix>`): the instrumented decoder computes the
-model's result, stays within `2·CAP + 40·|b|`, and keeps nothing after a failure -/
+model's result and stays within `2·CAP + 48·|b|`. (Third conjunct: the ledger keeps nothing after a failure — this is the drop
+semantics assumed in the combinators, read back; see the section header.) -/
 theorem C04_alloc_bound_prefix (b : Bytes) :
-    (rprefix b).val = prefix' b ∧ (rprefix b).peak ≤ 2 * CAP + 40 * b.length ∧ ((rprefix b).val = none → (rprefix b).live = 0) := by
+    (rprefix b).val = prefix' b ∧ (rprefix b).peak ≤ 2 * CAP + 48 * b.length ∧ ((rprefix b).val = none → (rprefix b).live = 0) := by
   refine ⟨rprefix_val b, ?_, bounded_rprefix.live_fail b⟩
   have hp := bounded_rprefix.peak b
   have hu : used b (rprefix b) ≤ b.length := by unfold used; split <;> omega
-  have := Nat.mul_le_mul_left 40 hu
+  have := Nat.mul_le_mul_left Bprefix hu
+  have hv : Bprefix = 48 := rfl
+  rw [hv] at this hp
   omega
-/-- after a failed parse of a transaction or block nothing stays allocated -/
+/-- after a failed parse of a transaction or block the ledger holds nothing: by the drop semantics ASSUMED in the combinators
+(every combinator returns `live = 0` with `none`), not by an argument about the decoder -/
 theorem C04_alloc_released (b : Bytes) :
     ((rtx b).val = none → (rtx b).live = 0) ∧ ((rblock b).val = none → (rblock b).live = 0) :=
   ⟨alloc_released_tx b, alloc_released_block b⟩
 
-/-- nothing stays allocated after a failed decode -/
+/-- the same for the inputs vector (assumed drop semantics, read back) -/
 theorem C04_alloc_released_on_error (b : Bytes) (h : (rvecTxIn b).val = none) : (rvecTxIn b).live = 0 :=
   bounded_rvecTxIn.live_fail b h
+example : (rvecTxIn []).val = none := by decide
 
 /-- `From<ExtraField> for RawExtraField` is `deserialize(&serialize(&extra)).unwrap()`; in the model `toRaw fs = none` is
 that `unwrap` panicking (the re-serialisation exceeds the allocation cap of the `Vec<u8>` decoder). For an `ExtraField`
@@ -144,9 +188,11 @@ theorem C04_raw_from_parsed_extra_no_panic (vk : Bytes → Bool) (e : Bytes) (hc
 
 /-! ## Explicit panic sites (Model/Panics.lean) are unreachable -/
 open Monero.Panics in
-/-- `Address::from_bytes` / `AddressType::from_slice`: none of the eleven index and slice expressions (`bytes[0]`,
-`&bytes[1..33]`, `&bytes[33..65]`, `&bytes[65..73]`, `&bytes[0..65]`, `&bytes[65..69]`, `&bytes[0..73]`, `&bytes[73..77]`,
-`&verify_checksum[0..4]`) can be out of bounds, for any blob, hash function with at least 4 output bytes and key
+/-- `Address::from_bytes` / `AddressType::from_slice`: none of the ten index and slice expressions — `bytes[0]` and
+`&bytes[65..73]` in `AddressType::from_slice`; `bytes[0]`, `&bytes[1..33]`, `&bytes[33..65]`, `&bytes[0..65]`, `&bytes[65..69]`,
+`&bytes[0..73]`, `&bytes[73..77]`, `&verify_checksum[0..4]` in `Address::from_bytes` (the source writes `&bytes[65..73]` three times,
+once per network arm: twelve textual occurrences) — can be out of bounds, and the length
+assertion of `PaymentId::from_slice` on the payment-id slice holds, for any blob, hash function with at least 4 output bytes and key
 predicate; the bounds of the payment-id slice come from the table regenerated from the source. The panic-explicit parser
 returns exactly what the C12 model returns. -/
 theorem C04_no_panic_address (H : Bytes → Bytes) (vk : Bytes → Bool) (hH : ∀ x, 4 ≤ (H x).length) (bytes : Bytes) :
@@ -178,27 +224,39 @@ theorem C04_no_panic_padding (b : Bytes) :
   ⟨padLoopP_eq 255 0 b (by omega), padLoopP_no_panic b⟩
 
 open Monero.Panics in
-/-- `VarInt::consensus_decode`: `res.split_last().unwrap()` finds a group and `int << 7` never shifts a set bit out,
-on every input on which the group loop ends; the value is the C14 model's -/
+/-- `VarInt::consensus_decode`: its one panic site, `res.split_last().unwrap()`, always finds a group on every input on which
+the group loop ends; and the value is the C14 model's — which includes that the shift `int << 7` (a WRAPPING shift in the
+panic-explicit model: a constant shift never panics, it silently drops bits) loses no set bit. The second fact is a statement
+about the value, not about a panic site. -/
 theorem C04_no_panic_varint (b : Bytes) (gs : List Nat) (r : Bytes) (h : collect b [] = some (gs, r)) :
     (accumP gs.reverse 0).isPanic = false ∧ (accumP gs.reverse 0).toOption = accum gs.reverse 0 := by
   rw [varint_accum_no_panic b gs r h]; cases accum gs.reverse 0 <;> exact ⟨rfl, rfl⟩
+example : collect [0x81, 0x01] [] = some ([1, 1], []) := by decide
+example : (Panics.accumP [] 0).isPanic = true := by decide
 
 open Monero.Panics in
-/-- `&prefix.inputs[0]` in `Transaction::consensus_decode` is only evaluated on a non-empty input list, and the ring
-size `len - 1` is taken with `checked_sub` (zero ring members is an error, not an underflow) -/
+/-- `&prefix.inputs[0]` in `Transaction::consensus_decode`. The index expression ALONE (`mixinAtP`: the `match &prefix.inputs[0]
+{ … }` without what precedes it in the source) panics exactly on the empty input list — the site CAN fire; under the guard the
+source puts around it (`if inputs > 0 { … } else { 0 }`) it cannot, and the guarded expression computes the ring size with
+`checked_sub` (zero ring members is an error, not an underflow). `txP` (see `C04_no_panic_tx`) uses exactly this guarded form. -/
 theorem C04_no_panic_ring_size (ins : List TxIn) :
-    (mixinP ins).isPanic = false ∧
-    mixinP ins = (match ins.head? with
+    ((mixinAtP ins).isPanic = true ↔ ins = []) ∧
+    (if ins.length > 0 then mixinAtP ins else .ok 0).isPanic = false ∧
+    (if ins.length > 0 then mixinAtP ins else .ok 0) = (match ins.head? with
       | some (.toKey _ o _) => if o.length = 0 then .err else .ok (o.length - 1)
-      | _ => .ok 0) := ⟨mixinP_no_panic ins, mixinP_eq ins⟩
+      | _ => .ok 0) := by
+  refine ⟨mixinAtP_panic_iff ins, ?_, ?_⟩
+  · rw [mixin_guarded]; exact mixinP_no_panic ins
+  · rw [mixin_guarded]; exact mixinP_eq ins
 
 
-/-! ## `1 + inputs` and `&prefix.inputs[0]` inside the transaction decoder; the public decoders with `usize` parameters -/
+/-! ## the MLSAG column count (`inputs.saturating_add(1)`, formerly `1 + inputs`) and `&prefix.inputs[0]` inside the transaction
+decoder; the public decoders with `usize` parameters -/
 open Monero.Panics in
 /-- `Transaction::consensus_decode`, whole: the panic-explicit decoder `txP` — control flow of the Rust function written
 out (early return on `inputs == 0`, `if inputs > 0` around `&prefix.inputs[0]`, `checked_sub(1)`), calling the
-panic-explicit `RctSigPrunable` decoder in which the column count is the `usize` saturating sum — reaches no panic site on any
+panic-explicit `RctSigPrunable` decoder in which the column count is computed with the operator read from the source
+(`saturating_add` on the present tree) — reaches no panic site on any
 byte string, and returns exactly what the model `tx` (the one the correspondence run ties to the code) returns
 (`inputs` is the length of a vector that passed the allocation cap: `inputs · size_of::<TxIn>() ≤ CAP`, constants from the
 regenerated tables). -/
@@ -207,22 +265,34 @@ theorem C04_no_panic_tx (b : Bytes) : (txP b).isPanic = false ∧ (txP b).toOpti
 
 open Monero.Panics in
 /-- the PUBLIC function `RctSigPrunable::consensus_decode(r, rct_type, inputs, outputs, mixin)` called directly: for every
-reader content, type, output count, ring size and EVERY `usize` value of `inputs`, no panic site is reachable and the result
-is the model's. (Before the fix commit "fix: RctSigPrunable::consensus_decode computes the MLSAG column count with
-saturating_add" the column count was `1 + inputs`, which overflowed for `rct_type = Full`, `inputs = usize::MAX` — found by
-stating this theorem: the proof needed the hypothesis `1 + inputs < 2^64`, and the real library panicked at the excluded
-point, `c04_dec prunable 1 18446744073709551615 0 0 -`: "attempt to add with overflow", ringct.rs:774.) -/
-theorem C04_no_panic_prunable (ty inputs outputs mixin : Nat) (b : Bytes) (h : inputs < 2 ^ 64) :
+reader content, type, output count, ring size and EVERY value of `inputs` (every `usize` and beyond), no panic site is reachable
+and the result is the model's. The MLSAG column count of the panic-explicit decoder is computed with the operator the
+translator READS FROM THE SOURCE (`Gen.mgColsOp` / `Gen.mgColsPlain`, regenerated on every run): the proof goes through
+`mgCols_src` (the source says `saturating_add`), so a source that goes back to `1 + inputs` — or to a wrapping sum — makes this
+theorem (and `C04_no_panic_tx`) fail to check; `C04_prunable_needs_saturating_add` shows what the other operators do.
+(Before the fix commit "fix: RctSigPrunable::consensus_decode computes the MLSAG column count with saturating_add" the column
+count was `1 + inputs`, which overflowed for `rct_type = Full`, `inputs = usize::MAX` — found by stating this theorem, and the
+real library panicked at that point, `c04_dec prunable 1 18446744073709551615 0 0 -`: "attempt to add with overflow".) -/
+theorem C04_no_panic_prunable (ty inputs outputs mixin : Nat) (b : Bytes) :
     (prunableP ty inputs outputs mixin b).isPanic = false ∧
     (prunableP ty inputs outputs mixin b).toOption = prunable ty inputs outputs mixin b := by
-  rw [prunableP_eq _ _ _ _ _ h]; exact ⟨ofOption_isPanic _, ofOption_toOption _⟩
-example : 16 < 2 ^ 64 := by decide
+  rw [prunableP_eq]; exact ⟨ofOption_isPanic _, ofOption_toOption _⟩
 
 open Monero.Panics in
 /-- at the point that used to overflow (`Full`, `inputs = usize::MAX`, no outputs, empty reader) the decoder now refuses:
 the saturated column count exceeds the allocation cap -/
 theorem C04_prunable_at_usize_max :
     (prunableP 1 (2 ^ 64 - 1) 0 0 []).isPanic = false ∧ (prunableP 1 (2 ^ 64 - 1) 0 0 []).toOption = none := prunableP_at_max
+
+open Monero.Panics in
+/-- the panic site is real and it is the source's operator that closes it: the same decoder with the bare `1 + inputs`
+(`plain = true`) panics at `Full`, `inputs = usize::MAX`; with `wrapping_add` it does not panic but reads ZERO columns there and
+accepts 32 bytes that the model (mathematical count `2^64`, beyond the cap) refuses -/
+theorem C04_prunable_needs_saturating_add :
+    (prunablePW true none 1 (2 ^ 64 - 1) 0 0 []).isPanic = true ∧
+    ((prunablePW false (some .wrapping_add) 1 (2 ^ 64 - 1) 0 0 (List.replicate 32 0)).toOption.isSome = true ∧
+     (prunable 1 (2 ^ 64 - 1) 0 0 (List.replicate 32 0)).isSome = false) :=
+  ⟨prunablePW_plain_panics, prunablePW_wrapping_differs⟩
 
 /-- the raw extra of every PARSED transaction respects the cap of the byte-vector decoder, so
 `RawExtraField::from(tx.prefix.extra.try_parse())` — `deserialize(&serialize(..)).unwrap()` — cannot panic, whatever
@@ -293,12 +363,29 @@ theorem C04_no_panic_signed_to_string (a : Int) (d : Denom) :
   rw [signedToStringInP_eq]; exact ⟨rfl, rfl⟩
 open Monero.Panics in
 /-- `SignedAmount::from_str_in` on any `&str`: beyond the sites of the parser (`C04_no_panic_amount_parser`) the `i64` negation
-`-(piconero as i64)` cannot overflow (its operand is a non-negative value that passed the `> i64::MAX` test) -/
+`-(piconero as i64)` cannot overflow. The operand of the negation is modelled as what the Rust evaluates — the WRAPPED cast
+`castI64 piconero`, which is `i64::MIN` for `piconero = 2^63` — and the site is unreachable only because of the preceding test
+`piconero > i64::MAX` (`negI64_cast_guarded` uses exactly that hypothesis; `C04_signed_from_str_needs_guard` shows the site
+firing when the test is absent). The result is the C15 model's. -/
 theorem C04_no_panic_signed_from_str (s : Bytes) (d : Denom) (hu : Utf8 s) :
     (signedFromStrInP s d).isPanic = false ∧
     (signedFromStrInP s d).toOption = Out.ofExcept (AmtText.signedFromStrIn s d) := by
   rw [signedFromStrInP_eq s d hu]; cases AmtText.signedFromStrIn s d <;> exact ⟨rfl, rfl⟩
-/- non-vacuity: the two new kinds of site can fire (negating `i64::MIN`; slicing a `str` inside a two-byte character) -/
+
+/-- the text "-9223372036854775808" (piconero), i.e. `piconero = 2^63`, negative -/
+def minusTwoPow63 : Bytes :=
+  [0x2d, 0x39, 0x32, 0x32, 0x33, 0x33, 0x37, 0x32, 0x30, 0x33, 0x36, 0x38, 0x35, 0x34, 0x37, 0x37, 0x35, 0x38, 0x30, 0x38]
+open Monero.Panics in
+/-- the range test is NEEDED: the same function without it (`signedFromStrInG false`) panics at the negation on the `&str`
+"-9223372036854775808" in piconero (`-(2^63 as i64)` = `-(i64::MIN)`), where the real function answers `Err(TooBig)` -/
+theorem C04_signed_from_str_needs_guard :
+    (signedFromStrInG false minusTwoPow63 .Piconero).isPanic = true ∧
+    (signedFromStrInG true minusTwoPow63 .Piconero).isPanic = false ∧
+    (signedFromStrInG true minusTwoPow63 .Piconero).toOption = none := by decide
+/- non-vacuity: the two new kinds of site can fire (negating the wrapped cast of `2^63`, which is `i64::MIN`; slicing a `str`
+inside a two-byte character); the cast wraps -/
+example : (Panics.negI64 "x" (Panics.castI64 (2 ^ 63))).isPanic = true := by decide
+example : Panics.castI64 (2 ^ 63) = -(2 : Int) ^ 63 ∧ Panics.castI64 (2 ^ 64 - 1) = -1 ∧ Panics.castI64 (2 ^ 63 - 1) = 2 ^ 63 - 1 := by decide
 example : (Panics.negI64 "x" (-(2 : Int) ^ 63)).isPanic = true := by decide
 example : (Panics.strSlice "x" [0xc2, 0xb5] 0 1).isPanic = true := by decide
 
